@@ -496,7 +496,7 @@ def r_bounded_write(ctx):
                         if pa is None:
                             continue
                         for c in [x for x in ast.walk(pa) if isinstance(x, ast.Call) and isinstance(x.func, ast.Attribute)]:
-                            if c.func.attr == 'resize' and c.args and ex.tb.term(c.args[0]).key == bound.key:
+                            if c.func.attr == 'resize' and c.args and (ex.tb.term(c.args[0]).key == bound.key or oracle.entails(fs, ('eq', ex.tb.term(c.args[0]), bound))):
                                 grown = True
                     if cap_alias or grown:
                         ok = True
@@ -672,11 +672,17 @@ def r_tail_drop(ctx):
         ctx.ok(inst, m.loc(updates[0]), '%d update(s), all subtractions' % len(updates))
     else:
         ctx.violation('%s.deleteEntriesFrom:offset-not-monotone' % fj.name, m.loc((other or [None])[0]), 'the walking offset is not only decreased', instance=inst)
-    # final store + publish on all normal paths
+    # final store + publish on all normal paths (the walked offset itself, or a local that is a copy taken after the walk)
+    finals = {local}
+    for n in ast.walk(m.node):
+        if isinstance(n, ast.Assign) and len(n.targets) == 1 and isinstance(n.targets[0], ast.Name) and isinstance(n.value, ast.Name) and n.value.id in finals \
+                and U.single_assign_value(m, n.targets[0].id) is n.value \
+                and not any(isinstance(p, (ast.While, ast.For)) for p in (U.node_containing(cfg, n).parents if U.node_containing(cfg, n) is not None else ())):
+            finals.add(n.targets[0].id)
     stores = [U.node_containing(cfg, n).id for n in ast.walk(m.node) if isinstance(n, ast.Assign) and P.self_attr(n.targets[0], m.self_name) == off
-              and isinstance(n.value, ast.Name) and n.value.id == local]
+              and isinstance(n.value, ast.Name) and n.value.id in finals]
     pubs_all = [c for c in P.calls_in(m) if jp['publish'] in P.resolve_call(m, c).targets]
-    pubs = [U.node_containing(cfg, c).id for c in pubs_all if c.args and isinstance(c.args[0], ast.Name) and c.args[0].id == local
+    pubs = [U.node_containing(cfg, c).id for c in pubs_all if c.args and isinstance(c.args[0], ast.Name) and c.args[0].id in finals
             and not any(isinstance(p, (ast.While, ast.For)) for p in U.node_containing(cfg, c).parents)]
     inst = 'new end offset stored and published'
     ctx.tick()
@@ -686,7 +692,7 @@ def r_tail_drop(ctx):
     if not pubs or cfg.exit.id in cfg.reachable_from(cfg.entry.id, avoid=pubs, follow_exc=False):
         bad.append('the final end offset is not published after the walk on every path')
     for c in pubs_all:
-        if not (c.args and isinstance(c.args[0], ast.Name) and c.args[0].id == local):
+        if not (c.args and isinstance(c.args[0], ast.Name) and c.args[0].id in finals):
             bad.append('`%s` publishes something other than the walking offset' % unparse(c))
     if bad:
         ctx.violation('%s.deleteEntriesFrom:final-offset' % fj.name, m.loc(), '; '.join(bad), instance=inst)
